@@ -16,7 +16,7 @@ func main() {
 	var scs []mcx.Scenario
 	for _, s := range scn.All() {
 		sc := mcx.Scenario{Name: s.Name, Body: s.Body, Cfg: mc.Config{TimerMode: s.TimerMode}, Bound: 2, ThoroughBound: 3, SwitchBound: 4, Family: strings.SplitN(s.Name, "/", 2)[0], MaxTime: 2 * time.Minute}
-		if strings.HasPrefix(s.Name, "sleep/") {
+		if strings.HasPrefix(s.Name, "sleep/") && !strings.HasPrefix(s.Name, "sleep/twice") {
 			sc.Bound, sc.ThoroughBound = -1, -1
 		}
 		scs = append(scs, sc)
